@@ -24,6 +24,9 @@ pub struct SchedCase {
     pub order: Vec<u8>,
     /// (evaluation index, drop after this many Pending polls of that evaluation)
     pub drop: Option<(usize, u32)>,
+    /// number of evaluations of input 0 that are started, polled up to their first Pending and abandoned,
+    /// one after the other, before the scheduled run (history of abandoned evaluations)
+    pub abandoned_before: u32,
 }
 
 type Outs = Vec<(String, Result<Value, String>)>;
@@ -104,6 +107,21 @@ pub fn check(case: &SchedCase) -> Verdict {
     // the scheduled run
     let built = probe::build(spec, false);
     let n = case.inputs.len();
+    if case.abandoned_before > 0 {
+        let r = catch(|| {
+            let waker = Waker::noop();
+            let mut cx = Context::from_waker(waker);
+            for _ in 0..case.abandoned_before {
+                let mut f = Box::pin(built.ruleset.evaluate_value(&case.inputs[0]));
+                let _ = f.as_mut().poll(&mut cx);
+                drop(f);
+            }
+        });
+        if let Err(p) = r {
+            return Err(Issue::new("sched:panic", format!("abandoning evaluations panicked: {p}; {}", render(case))));
+        }
+        built.log.lock().unwrap().clear();
+    }
     let mut futs: Vec<Option<Pin<Box<dyn Future<Output = reval::Result<Vec<reval::ruleset::Outcome>>> + '_>>>> =
         case.inputs.iter().map(|f| Some(Box::pin(built.ruleset.evaluate_value(f)) as Pin<Box<dyn Future<Output = _> + '_>>)).collect();
     let mut results: Vec<Option<Outs>> = vec![None; n];
@@ -183,6 +201,28 @@ pub fn check(case: &SchedCase) -> Verdict {
             }
         }
     }
+    // evaluations sharing one input id cannot be told apart in the log: their joint invocations must add up
+    if case.drop.is_none() {
+        let mut ids: Vec<String> = case.inputs.iter().map(id_of).collect();
+        ids.sort();
+        ids.dedup();
+        for id in ids {
+            let members: Vec<usize> = (0..n).filter(|i| id_of(&case.inputs[*i]) == id).collect();
+            if members.len() < 2 {
+                continue;
+            }
+            let mut want = vec![];
+            for m in &members {
+                want.extend(baselines[*m].1.clone());
+            }
+            if sorted(attributed(&log, &id)) != sorted(want.clone()) {
+                return Err(Issue::new(
+                    "sched:invocations-depend-on-schedule",
+                    format!("{} evaluations of the same input together invoked {:?}, alone they add up to {:?}; {}", members.len(), sorted(attributed(&log, &id)), sorted(want), render(case)),
+                ));
+            }
+        }
+    }
     // a fresh evaluation after everything (including abandoned ones) equals the baseline
     built.log.lock().unwrap().clear();
     let again = catch(|| detach(block_on(built.ruleset.evaluate_value(&case.inputs[0])).expect("evaluate_value")))
@@ -206,19 +246,20 @@ pub fn check(case: &SchedCase) -> Verdict {
 
 fn render(c: &SchedCase) -> String {
     format!(
-        "rules [{}] suspend={} inputs={} order={:?} drop={:?}",
+        "rules [{}] suspend={} inputs={} order={:?} drop={:?} abandoned_before={}",
         c.spec.rules.iter().map(|(n, e)| format!("{n}: {}", show_expr(e))).collect::<Vec<_>>().join("; "),
         c.spec.suspend,
         c.inputs.len(),
         c.order,
-        c.drop
+        c.drop,
+        c.abandoned_before
     )
 }
 
 impl SchedCase {
     fn to_json(&self) -> serde_json::Value {
         json!({"spec": spec_to_json(&self.spec), "inputs": self.inputs.iter().map(value_to_json).collect::<Vec<_>>(),
-            "order": self.order, "drop": self.drop.map(|(k, a)| json!([k, a]))})
+            "order": self.order, "drop": self.drop.map(|(k, a)| json!([k, a])), "abandoned_before": self.abandoned_before})
     }
     fn from_json(j: &serde_json::Value) -> Option<Self> {
         Some(SchedCase {
@@ -226,6 +267,7 @@ impl SchedCase {
             inputs: j.get("inputs")?.as_array()?.iter().map(value_from_json).collect::<Option<Vec<_>>>()?,
             order: j.get("order")?.as_array()?.iter().filter_map(|x| x.as_u64().map(|x| x as u8)).collect(),
             drop: j.get("drop").and_then(|d| d.as_array()).map(|d| (d[0].as_u64().unwrap_or(0) as usize, d[1].as_u64().unwrap_or(0) as u32)),
+            abandoned_before: j.get("abandoned_before").and_then(|x| x.as_u64()).unwrap_or(0) as u32,
         })
     }
 }
@@ -247,7 +289,7 @@ fn random_case(bytes: &[u8]) -> SchedCase {
         .collect();
     let suspend = d.below(4) as u32;
     let n = 1 + d.below(4);
-    let same_input = d.below(5) == 4;
+    let same_input = d.below(5) >= 3;
     let inputs: Vec<Value> = (0..n).map(|i| simple_facts(if same_input && i > 0 { 1 } else { i as i128 + 1 })).collect();
     let order: Vec<u8> = (0..d.below(60)).map(|_| d.byte()).collect();
     let drop = if d.below(3) == 0 {
@@ -258,7 +300,12 @@ fn random_case(bytes: &[u8]) -> SchedCase {
         None
     };
     let drop = if same_input { None } else { drop };
-    SchedCase { spec: SetSpec { rules, fns, symbols: BTreeMap::new(), suspend }, inputs, order, drop }
+    let abandoned_before = match d.below(8) {
+        7 => 1 + d.below(400) as u32,
+        6 => 1 + d.below(4) as u32,
+        _ => 0,
+    };
+    SchedCase { spec: SetSpec { rules, fns, symbols: BTreeMap::new(), suspend }, inputs, order, drop, abandoned_before }
 }
 
 /// exhaustive core: 2 evaluations of small rulesets, every poll order of bounded length, every drop point
@@ -311,7 +358,7 @@ pub fn run(ctx: &Ctx) {
         let dr = r % drops;
         let order: Vec<u8> = (0..10).map(|b| ((o >> b) & 1) as u8).collect();
         let drop = if dr == 0 { None } else { Some((((dr - 1) / 6) as usize, ((dr - 1) % 6) as u32)) };
-        SchedCase { spec: specs[s].clone(), inputs: vec![simple_facts(1), simple_facts(2)], order, drop }
+        SchedCase { spec: specs[s].clone(), inputs: vec![simple_facts(1), simple_facts(2)], order, drop, abandoned_before: 0 }
     };
     ctx.enumerate(
         "interleaving-core",
